@@ -60,6 +60,12 @@ class _Renamer(ast.NodeTransformer):
             return ast.copy_location(ast.Name(id=self.mapping[text], ctx=ast.Load()), node)
         return self.generic_visit(node)
 
+    def visit_BinOp(self, node: ast.BinOp) -> ast.AST:
+        text = txt(node)
+        if text in self.mapping:
+            return ast.copy_location(ast.Name(id=self.mapping[text], ctx=ast.Load()), node)
+        return self.generic_visit(node)
+
 
 def rename(expr: ast.AST, mapping: Dict[str, str]) -> ast.AST:
     """ replace maximal dotted paths / call texts found in mapping by atom names """
@@ -369,3 +375,45 @@ def straight_line_env(stmts: Sequence[ast.stmt], env: Optional[Dict[str, Affine]
 
 def negate_compare(expr: ast.AST) -> ast.AST:
     return ast.UnaryOp(op=ast.Not(), operand=expr)
+
+
+# ------------------------------------------------------- symbolic path walker
+class Path:
+    """ one path through straight-line code with if/else arms """
+    def __init__(self, conds, env, ret, kind):
+        self.conds = conds      # list of (test ast, polarity)
+        self.env = env          # name -> Affine at the end of the path
+        self.ret = ret          # returned expression (ast) or None
+        self.kind = kind        # 'return' | 'raise' | 'fall' | 'loop'
+
+    def cond_texts(self) -> List[str]:
+        return [("" if pol else "not ") + txt(test) for test, pol in self.conds]
+
+
+def sym_paths(stmts: Sequence[ast.stmt], env: Optional[Dict[str, Affine]] = None,
+              conds: Optional[list] = None, limit: int = 256) -> List[Path]:
+    """ enumerate the paths of a block made of assignments, if/else, return and raise;
+        a loop ends the path with kind 'loop' (what follows is not straight-line) """
+    env = dict(env or {})
+    conds = list(conds or [])
+    for index, stmt in enumerate(stmts):
+        if isinstance(stmt, ast.Return):
+            return [Path(conds, env, stmt.value, "return")]
+        if isinstance(stmt, ast.Raise):
+            return [Path(conds, env, None, "raise")]
+        if isinstance(stmt, (ast.For, ast.While, ast.Try, ast.With)):
+            return [Path(conds, env, None, "loop")]
+        if isinstance(stmt, ast.If):
+            rest = list(stmts[index + 1:])
+            out: List[Path] = []
+            for arm, pol in ((stmt.body, True), (stmt.orelse, False)):
+                for sub in sym_paths(list(arm), env, conds + [(stmt.test, pol)], limit):
+                    if sub.kind == "fall":
+                        out.extend(sym_paths(rest, sub.env, sub.conds, limit))
+                    else:
+                        out.append(sub)
+                    if len(out) > limit:
+                        raise OutsideFragment("too many paths")
+            return out
+        env = straight_line_env([stmt], env)
+    return [Path(conds, env, None, "fall")]
